@@ -100,8 +100,16 @@ def history_case(seed):
         _git(d, "commit", "-q", "-m", "init")
         configured = sorted(list(files) + ["bumpver.toml", both[0]])
         prev = cur
-        for step in range(rng.randint(1, 6)):
+        # directed family (a third of the histories): the config runs ahead of the tags across a 9 -> 10 carry
+        # (untagged --minor from x.9.y), so that version order and string order of tag and config disagree
+        directed = tagging and "MAJOR" in pattern and rng.random() < 0.5
+        nsteps = rng.randint(3, 6) if directed else rng.randint(1, 6)
+        for step in range(nsteps):
             kind = rng.choice(["update", "update", "update", "fail", "unrelated", "notag"])
+            if directed and step in (0, 2):
+                kind = "update"  # a tag at x.9.z first; after the untagged carry a plain update
+            if directed and step == 1:
+                kind = "notag"
             head_before = _git(d, "rev-parse", "HEAD").strip()
             if kind == "unrelated":
                 open(os.path.join(d, "other.txt"), "a").write(f"more {step}\n")
@@ -111,6 +119,10 @@ def history_case(seed):
             flags = ["--patch"] if "MAJOR" in pattern else []
             if "MAJOR" in pattern and rng.random() < 0.3:
                 flags = [rng.choice(["--minor", "--major"])]
+            if directed and step == 0:
+                flags = ["--patch"]
+            if directed and step == 1:
+                flags = ["--minor"]
             if "TAG" in pattern and kind != "fail" and rng.random() < 0.5:
                 flags = flags + ["--tag", rng.choice(["rc", "final", "beta", "post"])]
             if kind == "fail":
